@@ -36,6 +36,23 @@ CHECKS = {
             'Per payload path one obligation per field (f32 scalings compared as IEEE terms), plus ME/BDS/op-status dispatch tables, for all 2^56 payloads under DF17/18/20/21.', '§2 C10'),
 }
 
+TRACKER_NOTE = MIRSYM_NOTE + (' Tracker: one inductive step from an arbitrary pre-state satisfying the stated representation '
+                'invariant (k symbolic records); cpr::get_position stubbed as an uninterpreted function with the parity rule; '
+                'BTreeMap modelled with concrete structure / symbolic keys (iteration order not modelled); clock symbolic.')
+CHECKS.update({
+    'C01': ('model_checking', 'mirsym: every MIR assert/unwrap/bounds check on every path of decode, Display, calculate, get_position and the tracker step is an unsat query',
+            'No panic leaf is feasible on any path of Frame::from_bytes (lengths 0..=32 thorough), of Display/calculate on every decoded frame, of get_position on two arbitrary '
+            'reports, and of Airplanes::action on an arbitrary frame from an arbitrary valid tracker state; fuel bound rules out non-termination; appended bytes bounded by 4*len+64.', '§2 C01'),
+    'C12': ('model_checking', 'mirsym: one symbolic step of Airplanes::action from an arbitrary valid state vs a reference model, equality decided by z3',
+            'Step lemma: added-flag, key set, message count and isolation (all other records identical) for every frame class and an arbitrary map of k records; histories of any length follow by induction on the invariant.', '§2 C12'),
+    'C13': ('model_checking', 'mirsym step lemma (position record vs reference model) + haversine formula identity in real arithmetic with uninterpreted sin/cos/atan2/sqrt',
+            'Post position record equals the reference rule (pair most recent even/odd, range check, 100 km jump check, clear otherwise) on every path; the distance term equals the reference haversine formula (R = 6371) modulo real-arithmetic identities.', '§2 C13'),
+    'C14': ('model_checking', 'mirsym step lemma for attributes/track + symbolic execution of aircraft_details/all_position on arbitrary maps',
+            'Latest-wins attributes, untouched other attributes, track = previous track ++ superseded record, invariants (distance iff position, slot parity) re-established; views equal their definitions on arbitrary states.', '§2 C14'),
+    'C15': ('model_checking', 'mirsym: prune() from an arbitrary map with symbolic threshold and symbolic (monotone and free-running) clock',
+            'A record survives iff now - last_heard < T seconds (clock error => removed), survivors untouched; a frame for an untracked address yields added + fresh record (step lemma).', '§2 C15'),
+})
+
 NOT_APPLICABLE = [
     ('C16', 'socket I/O, read timeouts and stream segmentation are environment behaviour inline in main(); no unit a solver can execute'),
     ('C17', 'pty/raw-mode/TUI event histories through crossterm + ratatui and threads; outside Kani and the MIR executor'),
@@ -43,13 +60,8 @@ NOT_APPLICABLE = [
 ]
 
 PENDING = {
-    'C01': 'check under construction (totality over mirsym leaves); not claimed yet',
     'C05': 'check under construction (CPR, z3 QF_FP); not claimed yet',
     'C11': 'check under construction (Display templates); not claimed yet',
-    'C12': 'check under construction (tracker step lemma); not claimed yet',
-    'C13': 'check under construction; not claimed yet',
-    'C14': 'check under construction; not claimed yet',
-    'C15': 'check under construction; not claimed yet',
     'C19': 'check under construction (scheduled reader); not claimed yet',
     'C20': 'check under construction (alloc vs std MIR); not claimed yet',
 }
@@ -72,7 +84,7 @@ def main():
             'replay_cmd_template': './check %s --replay {path}' % pid,
             'engine': 'mirsym',
             'level_claimed': {'category': cat, 'text': text, 'design_ref': 'DESIGN.md ' + ref},
-            'level_note': MIRSYM_NOTE,
+            'level_note': TRACKER_NOTE if pid in ('C12', 'C13', 'C14', 'C15', 'C01') else MIRSYM_NOTE,
             'technique': tech,
         })
         claimed[pid] = True
